@@ -348,3 +348,10 @@ PROPS["C03"]["theorems"] = PROPS["C03"]["theorems"] + ["Toxi.Start.C03_started_s
 # reset at the links (ResetLink.lean)
 PROPS["C17"]["lean_modules"] = PROPS["C17"]["lean_modules"] + ["Toxi.Proofs.Lemmas.ResetLink"]
 PROPS["C17"]["theorems"] = PROPS["C17"]["theorems"] + ["Toxi.Link.C17_reset_link"]
+
+# C09 at the links: order and content behind a bandwidth toxic that releases instalments (E3)
+PROPS["C09"]["engines"] = PROPS["C09"]["engines"] + [{"engine": "e3", "gotest": True, "args": ["-props", "C09", "-mode", "preserving"], "tag": "C09link"}]
+PROPS["C09"]["needs_gotest"] = True
+PROPS["C19"]["theorems"] = PROPS["C19"]["theorems"] + ["Toxi.Client.C19_populate_decodes", "Toxi.Client.C19_populate_is_api"]
+# the registry of a proxy's sockets (C03_all_closed over the lifecycle model with linkEnd; tie_registry)
+PROPS["C03"]["theorems"] = PROPS["C03"]["theorems"] + ["Toxi.Proxy.C03_all_closed", "Toxi.Proxy.ever_step", "Toxi.Ties.tie_registry"]
